@@ -1077,7 +1077,7 @@ def generate(ctx):
             cases.append(c)
     for _ in range(ctx.n(450, 5000)):
         add(_gen_maps(rng))
-    for _ in range(ctx.n(300, 3500)):
+    for _ in range(ctx.n(270, 3500)):
         add(_gen_node(rng, 0.2 if ctx.quick else 0.4))
     for _ in range(ctx.n(40, 500)):
         add(_gen_shortcut(rng, 0.2 if ctx.quick else 0.4))
